@@ -21,12 +21,14 @@ def mat(da):
 # ------------------------------------------------------------------------------------------
 class Recipe:
     def __init__(self, name, gen, call, fixed=(), lazy=True, dask=True, dataset=None, dims_kw=True, fn=None,
-                 specific=(), weights=False, kind="mean", keeps=()):
+                 specific=(), weights=False, kind="mean", keeps=(), obs_extra=False, fwd_weights=False):
         self.name, self.gen, self.call = name, gen, call
         self.specific = (set(specific) | set(fixed)) - set(keeps)   # score-specific dims: never survive in the result
         self.nondata = set(specific) | set(fixed)                     # dims that are not "data dimensions" of the request
         self.weights = weights         # accepts weights=
         self.kind = kind               # mean | ratio | other (how weights act)
+        self.obs_extra = obs_extra     # obs may carry a dimension the forecast lacks (broadcast)
+        self.fwd_weights = fwd_weights  # passes weights.dims to the dimension rule (a weights-only dim is a data dim)
         self.fixed = set(fixed)        # positional dims: never transposed away / label-shuffled
         self.lazy = lazy               # result expected to stay lazy for dask inputs
         self.dask = dask               # dask representation in scope
@@ -40,6 +42,15 @@ def g_point(rng, nan=0.15, lo=0, hi=4, extra=None):
     f = gens.rand_da(rng, sizes, nan_p=nan, lo=lo, hi=hi, den=2)
     o = gens.rand_da(rng, sizes, dims=gens.sub_dims(rng, sizes, p_drop=0.2, keep_at_least=1), nan_p=nan, lo=lo, hi=hi, den=2)
     return [f, o]
+
+
+def add_obs_dim(rng, xs, name="e"):
+    """give the observation a dimension the forecast lacks"""
+    o = xs[1]
+    n = rng.randint(1, 2)
+    parts = [o if k == 0 else o.copy(data=np.roll(o.values, k)) for k in range(n)]     # same value set (binary stays binary)
+    o2 = xr.concat(parts, dim=xr.DataArray(rng.sample(range(n), n), dims=name, name=name))
+    return [xs[0], mat(o2)] + list(xs[2:])
 
 
 def g_same(rng, **kw):
@@ -122,44 +133,44 @@ def recipes():
     from scores.processing.cdf import cdf_envelope
     dw = xr.DataArray([[1.0, 2.0], [0.5, 1.0]], dims=["pt", "sev"], coords={"pt": [0.25, 0.75], "sev": [0, 1]})
     R = [
-        Recipe("mse", g_point, lambda x, **k: C.mse(x[0], x[1], **k), dataset=C.mse, weights=True),
-        Recipe("rmse", g_point, lambda x, **k: C.rmse(x[0], x[1], **k), dataset=C.rmse, weights=True),
-        Recipe("mae", g_point, lambda x, **k: C.mae(x[0], x[1], **k), dataset=C.mae, weights=True),
+        Recipe("mse", g_point, lambda x, **k: C.mse(x[0], x[1], **k), dataset=C.mse, weights=True, obs_extra=True),
+        Recipe("rmse", g_point, lambda x, **k: C.rmse(x[0], x[1], **k), dataset=C.rmse, weights=True, obs_extra=True),
+        Recipe("mae", g_point, lambda x, **k: C.mae(x[0], x[1], **k), dataset=C.mae, weights=True, obs_extra=True),
         Recipe("mse_angular", g_point, lambda x, **k: C.mse(x[0] * 45, x[1] * 45, is_angular=True, **k)),
-        Recipe("additive_bias", g_point, lambda x, **k: C.additive_bias(x[0], x[1], **k), dataset=C.additive_bias, weights=True),
-        Recipe("multiplicative_bias", g_point, lambda x, **k: C.multiplicative_bias(x[0], x[1], **k), dataset=C.multiplicative_bias, weights=True, kind="ratio"),
-        Recipe("pbias", g_point, lambda x, **k: C.pbias(x[0], x[1], **k), dataset=C.pbias, weights=True, kind="ratio"),
+        Recipe("additive_bias", g_point, lambda x, **k: C.additive_bias(x[0], x[1], **k), dataset=C.additive_bias, weights=True, obs_extra=True),
+        Recipe("multiplicative_bias", g_point, lambda x, **k: C.multiplicative_bias(x[0], x[1], **k), dataset=C.multiplicative_bias, weights=True, kind="ratio", obs_extra=True),
+        Recipe("pbias", g_point, lambda x, **k: C.pbias(x[0], x[1], **k), dataset=C.pbias, weights=True, kind="ratio", obs_extra=True),
         Recipe("kge", g_same, lambda x, **k: C.kge(x[0], x[1], include_components=True, **k), kind="other"),
         Recipe("pearsonr", g_same, lambda x, **k: pearsonr(x[0], x[1], **k), kind="other"),
         Recipe("quantile_score", g_point, lambda x, **k: C.quantile_score(x[0], x[1], 0.3, **k), dataset=C.quantile_score, weights=True),
         Recipe("quantile_interval_score", g_point, lambda x, **k: C.quantile_interval_score(x[0], x[0] + 1, x[1], 0.1, 0.8, **k), weights=True),
         Recipe("interval_score", g_point, lambda x, **k: C.interval_score(x[0], x[0] + 1, x[1], 0.5, **k), weights=True),
-        Recipe("murphy_score", g_point, lambda x, **k: C.murphy_score(x[0], x[1], [1.0, 2.0], functional="huber", huber_a=1.0, alpha=0.3, decomposition=True, **k)),
-        Recipe("consistent_quantile_score", g_point, lambda x, **k: C.consistent_quantile_score(x[0], x[1], 0.3, lambda v: v, **k), weights=True),
-        Recipe("consistent_expectile_score", g_point, lambda x, **k: C.consistent_expectile_score(x[0], x[1], 0.3, lambda v: v ** 2, lambda v: 2 * v, **k), weights=True),
-        Recipe("tw_squared_error", g_point, lambda x, **k: C.tw_squared_error(x[0], x[1], (1, 3), **k), weights=True),
-        Recipe("tw_absolute_error", g_point, lambda x, **k: C.tw_absolute_error(x[0], x[1], (1, 3), **k), weights=True),
+        Recipe("murphy_score", g_point, lambda x, **k: C.murphy_score(x[0], x[1], [1.0, 2.0], functional="huber", huber_a=1.0, alpha=0.3, decomposition=True, **k), obs_extra=True),
+        Recipe("consistent_quantile_score", g_point, lambda x, **k: C.consistent_quantile_score(x[0], x[1], 0.3, lambda v: v, **k), weights=True, obs_extra=True),
+        Recipe("consistent_expectile_score", g_point, lambda x, **k: C.consistent_expectile_score(x[0], x[1], 0.3, lambda v: v ** 2, lambda v: 2 * v, **k), weights=True, obs_extra=True),
+        Recipe("tw_squared_error", g_point, lambda x, **k: C.tw_squared_error(x[0], x[1], (1, 3), **k), weights=True, obs_extra=True),
+        Recipe("tw_absolute_error", g_point, lambda x, **k: C.tw_absolute_error(x[0], x[1], (1, 3), **k), weights=True, obs_extra=True),
         Recipe("tw_quantile_score", g_point, lambda x, **k: C.tw_quantile_score(x[0], x[1], 0.3, (1, 3), **k), weights=True),
         Recipe("tw_huber_loss_trapezoid", g_point, lambda x, **k: C.tw_huber_loss(x[0], x[1], 1.5, (1, 2), interval_where_positive=(0, 3), **k), weights=True),
-        Recipe("firm", g_point, lambda x, **k: K.firm(x[0], x[1], 0.3, [1, 2], [1, 2], discount_distance=1.0, **k), weights=True),
-        Recipe("probability_of_detection", g_binary, lambda x, **k: K.probability_of_detection(x[0], x[1], **k), dataset=K.probability_of_detection, weights=True, kind="ratio"),
-        Recipe("probability_of_false_detection", g_binary, lambda x, **k: K.probability_of_false_detection(x[0], x[1], **k), weights=True, kind="ratio"),
-        Recipe("brier_score", g_prob, lambda x, **k: P.brier_score(x[0], x[1], **k), dataset=P.brier_score, weights=True),
-        Recipe("roc_curve_data", g_prob, lambda x, **k: P.roc_curve_data(x[0], x[1], [0, 0.25, 0.5, 0.75, 1], **k), lazy=False, weights=True, kind="ratio"),
+        Recipe("firm", g_point, lambda x, **k: K.firm(x[0], x[1], 0.3, [1, 2], [1, 2], discount_distance=1.0, **k), weights=True, obs_extra=True),
+        Recipe("probability_of_detection", g_binary, lambda x, **k: K.probability_of_detection(x[0], x[1], **k), dataset=K.probability_of_detection, weights=True, kind="ratio", obs_extra=True),
+        Recipe("probability_of_false_detection", g_binary, lambda x, **k: K.probability_of_false_detection(x[0], x[1], **k), weights=True, kind="ratio", obs_extra=True),
+        Recipe("brier_score", g_prob, lambda x, **k: P.brier_score(x[0], x[1], **k), dataset=P.brier_score, weights=True, obs_extra=True),
+        Recipe("roc_curve_data", g_prob, lambda x, **k: P.roc_curve_data(x[0], x[1], [0, 0.25, 0.5, 0.75, 1], **k), lazy=False, weights=True, kind="ratio", obs_extra=True),
         Recipe("binary_discretise_proportion", g_point, lambda x, **k: PR.binary_discretise_proportion(x[0], [1, 2], ">=", **k)),
-        Recipe("contingency_table", g_point, lambda x, **k: K.ThresholdEventOperator().make_contingency_manager(x[0], x[1], event_threshold=2).transform(**k).get_table(), lazy=False),
-        Recipe("crps_for_ensemble", g_ens, lambda x, **k: P.crps_for_ensemble(x[0], x[1], "m", include_components=True, **k), fixed=[], weights=True, specific=["m"]),
-        Recipe("crps_for_ensemble_fair", g_ens, lambda x, **k: P.crps_for_ensemble(x[0], x[1], "m", method="fair", **k), weights=True, specific=["m"]),
-        Recipe("tail_tw_crps_for_ensemble", g_ens, lambda x, **k: P.tail_tw_crps_for_ensemble(x[0], x[1], "m", 2.0, **k), weights=True, specific=["m"]),
-        Recipe("interval_tw_crps_for_ensemble", g_ens, lambda x, **k: P.interval_tw_crps_for_ensemble(x[0], x[1], "m", 1.0, 3.0, **k), weights=True, specific=["m"]),
-        Recipe("brier_score_for_ensemble", g_ens, lambda x, **k: P.brier_score_for_ensemble(x[0], x[1], "m", [1, 2], **k), weights=True, specific=["m"]),
+        Recipe("contingency_table", g_point, lambda x, **k: K.ThresholdEventOperator().make_contingency_manager(x[0], x[1], event_threshold=2).transform(**k).get_table(), lazy=False, obs_extra=True),
+        Recipe("crps_for_ensemble", g_ens, lambda x, **k: P.crps_for_ensemble(x[0], x[1], "m", include_components=True, **k), fixed=[], weights=True, specific=["m"], fwd_weights=True),
+        Recipe("crps_for_ensemble_fair", g_ens, lambda x, **k: P.crps_for_ensemble(x[0], x[1], "m", method="fair", **k), weights=True, specific=["m"], fwd_weights=True),
+        Recipe("tail_tw_crps_for_ensemble", g_ens, lambda x, **k: P.tail_tw_crps_for_ensemble(x[0], x[1], "m", 2.0, **k), weights=True, specific=["m"], fwd_weights=True),
+        Recipe("interval_tw_crps_for_ensemble", g_ens, lambda x, **k: P.interval_tw_crps_for_ensemble(x[0], x[1], "m", 1.0, 3.0, **k), weights=True, specific=["m"], fwd_weights=True),
+        Recipe("brier_score_for_ensemble", g_ens, lambda x, **k: P.brier_score_for_ensemble(x[0], x[1], "m", [1, 2], **k), weights=True, specific=["m"], fwd_weights=True),
         Recipe("crps_cdf_exact", g_cdf, lambda x, **k: P.crps_cdf(x[0], x[1], include_components=True, **k), fixed=["threshold"], weights=True),
         Recipe("crps_cdf_trapz", g_cdf, lambda x, **k: P.crps_cdf(x[0], x[1], integration_method="trapz", **k), fixed=["threshold"], weights=True),
         Recipe("crps_cdf_brier_decomposition", g_cdf, lambda x, **k: P.crps_cdf_brier_decomposition(x[0], x[1], **k), fixed=["threshold"], keeps=["threshold"]),
         Recipe("cdf_envelope", g_cdf, lambda x, **k: cdf_envelope(x[0], "threshold"), fixed=["threshold"], dims_kw=False, lazy=False),
         Recipe("adjust_fcst_for_crps", g_cdf, lambda x, **k: P.adjust_fcst_for_crps(x[0], "threshold", x[1]), fixed=["threshold"], dims_kw=False, lazy=False),
         Recipe("fss_2d", g_fss, lambda x, **k: fss_2d(x[0], x[1], event_threshold=2, window_size=(2, 2), spatial_dims=("x", "y"), **k), fixed=["x", "y"], dask=False, lazy=False),
-        Recipe("risk_matrix_score", g_risk, lambda x, **k: risk_matrix_score(x[0], x[1], dw, "sev", "pt", **k), lazy=False, weights=True, specific=["sev"]),
+        Recipe("risk_matrix_score", g_risk, lambda x, **k: risk_matrix_score(x[0], x[1], dw, "sev", "pt", **k), lazy=False, weights=True, specific=["sev"], fwd_weights=True),
         Recipe("isotonic_fit_weighted", g_iso, lambda x, **k: iso_result(Sc.processing.isoreg_impl.isotonic_fit(x[0], x[1], weight=x[2])),
                dims_kw=False, dask=False, lazy=False),
         Recipe("isotonic_fit_median", g_iso, lambda x, **k: iso_result(Sc.processing.isoreg_impl.isotonic_fit(x[0], x[1], functional="quantile", quantile_level=0.5)),
